@@ -130,13 +130,13 @@ fn source_case(seed: u64, i: u64) -> CaseOut {
             }
         } else {
             match (&on, &ref_img) {
-                (AsmOutcome::Ok(got), Some(img)) if got.words == img.words && got.orig == img.orig => out.class("ext_source:on_accepted"),
+                (AsmOutcome::Ok(got), Some(img)) if got.words == img.words && got.origin() == img.origin() => out.class("ext_source:on_accepted"),
                 _ => out.violate("C18/on/extension-not-assembled", i, "with the feature on, a valid source using the stack mnemonics does not assemble to its image", detail(&off, &on)),
             }
         }
     } else {
         match (&off, &on, &ref_img) {
-            (AsmOutcome::Ok(a), AsmOutcome::Ok(b), Some(img)) if a.words == b.words && a.orig == b.orig && a.words == img.words && a.orig == img.orig => {
+            (AsmOutcome::Ok(a), AsmOutcome::Ok(b), Some(img)) if a.words == b.words && a.origin() == b.origin() && a.words == img.words && a.origin() == img.origin() => {
                 out.class("plain_source:same_image")
             }
             _ => out.violate("C18/flag-changes-plain-program", i, "a program using none of the four mnemonics assembles differently under the two flag values", detail(&off, &on)),
